@@ -14,6 +14,7 @@ into its grammars):
   3  `<< vh.Last(C, id, $k) >>`, k = n-1  node id [X[n-1]]
   4  `<< vh.TokOf(C, id, $T0) >>`         node id [X[0]]          (`$Tn`: X[0] must be a token)
   5  `<< vh.WithCtx($Context, id, X) >>`  node id [X...]          (`$Context`)
+  7  `<< vh.Sel(C, id, $10) >>`           node id [X[10]]        (two-digit index)
   6  `<< vh.Pct(C, id, "%s|%d|%%|%v|%!", X) >>`  node id [X...]   (printf verbs in the action text arrive verbatim)
 Every harness action first appends `id` to the call log and fails (returns an error) when the
 call counter reaches `failAt`.
@@ -115,6 +116,9 @@ def userAction (shape id : Nat) (X : List Attr) : Except String Attr :=
     | x :: _ => .ok (.node id [x])
     | [] => .error "index out of range"
   | 3 => match X.getLast? with
+    | some x => .ok (.node id [x])
+    | none => .error "index out of range"
+  | 7 => match X[10]? with
     | some x => .ok (.node id [x])
     | none => .error "index out of range"
   | 4 => match X with
